@@ -121,3 +121,22 @@ _EXTRA = {"DefInt": (["a", "b"], ["I", "H"], 1), "DefStr": (["a", "s"], ["I", "v
           "Child": (["a", "b", "c"], ["I", "H", "Q"], 1)}
 for _cname, (_names, _fmts, _nreq) in _EXTRA.items():
     equiv_contract("contracts/c20_defs.py", _cname, _names, _fmts, _nreq)
+
+
+# ---------------------------------------------------------------------------------------------------------------------
+# dataclass form: the type -> format table (doc/reference/serialization.rst, "dataclass" paragraph + table)
+
+try:
+    from ipv8.messaging.payload_dataclass import type_map  # noqa: F401
+    from ipv8.messaging.payload_headers import GlobalTimeDistributionPayload  # noqa: F401
+except ImportError:
+    pass
+
+PD = "ipv8/messaging/payload_dataclass.py"
+for _texpr, _expected in (("bool", "'?'"), ("int", "'q'"), ("float", "'d'"), ("bytes", "'varlenH'"), ("str", "'varlenHutf8'"),
+                          ("list[int]", "'arrayH-q'"), ("list[bool]", "'arrayH-?'"), ("list[float]", "'arrayH-d'"),
+                          ("tuple[int]", "'arrayH-q'"), ("set[int]", "'arrayH-q'"),
+                          ("list[GlobalTimeDistributionPayload]", "[GlobalTimeDistributionPayload]"),
+                          ("GlobalTimeDistributionPayload", "GlobalTimeDistributionPayload")):
+    contract(f"{PD}::type_map", f"type_map[{_texpr}]", vars={"T": EXPR(_texpr)}, call="type_map(T)", raises=[],
+             ensures=[f"result == {_expected}"], note="documented native-type to format mapping")
